@@ -34,6 +34,7 @@ type scenario struct {
 	Perturb string   `json:"perturb"` // "", swapK, dupK
 	Seq0    int      `json:"seq0"`
 	PsSplit bool     `json:"ps_split"`      // a frame in two PES packets
+	PsTcp   bool     `json:"ps_tcp"`         // packets arrive as over TCP: read into one buffer that every packet reuses
 	PsNoPts bool     `json:"ps_no_pts"`     // ... the second one without PTS (continuation)
 	AacAggr int      `json:"aac_aggregate"` // RTSP: up to this many consecutive AAC frames per RTP packet (0 / 1: one each)
 	AacFrag bool     `json:"aac_fragment"`  // RTSP: an AAC frame larger than the payload limit is fragmented
@@ -507,9 +508,14 @@ func run(sc scenario) (res []result, compared int, infra error) {
 			pk = append(pk, ref.SplitRtp(ps, 96, &seq, uint32(pts), 9, sc.Limit)...)
 		}
 		pk = perturb(pk, sc.Perturb)
+		var scratch []byte
 		for _, x := range pk {
 			x := x
-			w.Net.Async(func() { gb28181.VerifFeed(sess, x) })
+			if sc.PsTcp {
+				w.Net.Async(func() { gb28181.VerifFeedTcp(sess, &scratch, x) })
+			} else {
+				w.Net.Async(func() { gb28181.VerifFeed(sess, x) })
+			}
 			if err := w.Settle(); err != nil {
 				return nil, 0, err
 			}
@@ -926,6 +932,9 @@ func main() {
 					}
 				}
 				if src == "ps" {
+					b13 := base
+					b13.PsTcp = true
+					cases = append(cases, b13)
 					b5 := base
 					b5.PsSplit = true
 					cases = append(cases, b5)
@@ -944,6 +953,11 @@ func main() {
 							b7 := b6
 							b7.Seq0 = 65533
 							cases = append(cases, b7)
+							if src == "ps" {
+								b12 := b6
+								b12.PsTcp = true
+								cases = append(cases, b12)
+							}
 						}
 					}
 				}
@@ -969,7 +983,7 @@ func main() {
 		r.AddTransitions(int64(len(sc.Seq) + 5))
 		r.AddTraces(1)
 		for _, v := range res {
-			r.Violation(sc.Source+"/"+v.key, fmt.Sprintf("[%s %s+%s@%d seq=%v limit=%d aggr=%v perturb=%s seq0=%d split=%v/%v aac-aggr=%d aac-frag=%v] %s", sc.Source, sc.Video, sc.Audio, sc.Rate, sc.Seq, sc.Limit, sc.Aggr, sc.Perturb, sc.Seq0, sc.PsSplit, sc.PsNoPts, sc.AacAggr, sc.AacFrag, v.what), sc)
+			r.Violation(sc.Source+"/"+v.key, fmt.Sprintf("[%s %s+%s@%d seq=%v limit=%d aggr=%v perturb=%s seq0=%d split=%v/%v tcp=%v aac-aggr=%d aac-frag=%v] %s", sc.Source, sc.Video, sc.Audio, sc.Rate, sc.Seq, sc.Limit, sc.Aggr, sc.Perturb, sc.Seq0, sc.PsSplit, sc.PsNoPts, sc.PsTcp, sc.AacAggr, sc.AacFrag, v.what), sc)
 		}
 		if compared > 0 {
 			r.Class(fmt.Sprintf("%+v", sc))
